@@ -5,8 +5,10 @@
    `peval O p x` = Σ p_i x^i is the specification of a coefficient list (PolyBase.peval). *)
 From Coq Require Import List Arith ZArith Bool.
 From VBase Require Import FieldOps ZpOps.
-From VModel Require Import Polynom.
-From VProofs Require Import PolyBase PolyArith PolyUtils PolyDiv PolyRoots PolyInterp PolyInst.
+From VGen Require Import F64 F62 F128.
+From VModel Require Import Polynom ExtField PolynomExt.
+From VProofs Require Import PolyBase PolyArith PolyUtils PolyDiv PolyRoots PolyInterp PolyBatch PolyUnique PolyInst.
+From VProofs Require Import ZpLaws ExtModel ExtConcrete.
 Import ListNotations.
 Local Open Scope nat_scope.
 
@@ -203,11 +205,55 @@ Theorem C20_interpolate_unrepaired_refuted : forall dbg xs ys rlz,
   In zero xs -> interpolate_unrepaired O dbg xs ys rlz = Panic.
 Proof. exact (interpolate_unrepaired_zero O L). Qed.
 
+(* ---------------------------------------------------------------- interpolate_batch *)
+(* any N >= 1, any number of batches, rows of length N (the array type): never panics and row i of the result is
+   exactly what `interpolate` returns on batch i (duplicates and X = 0 allowed; the `roots` vector reused between
+   batches and the single batch inversion over all n*N denominators make no difference) *)
+Theorem C20_interpolate_batch_spec : forall dbg N xs ys, 1 <= N -> length xs = length ys ->
+  (forall r, In r xs -> length r = N) -> (forall r, In r ys -> length r = N) ->
+  exists ps, interpolate_batch O dbg N xs ys = Ok ps /\ length ps = length xs /\
+    forall i, i < length xs -> interpolate O dbg (nth i xs []) (nth i ys []) false = Ok (nth i ps []).
+Proof. exact (interpolate_batch_spec O L). Qed.
+
+(* hence, for rows of N distinct X coordinates, polynomial i passes through the points of batch i *)
+Theorem C20_interpolate_batch_evaluates : forall dbg N xs ys ps, 1 <= N -> length xs = length ys ->
+  (forall r, In r xs -> length r = N /\ NoDup r) -> (forall r, In r ys -> length r = N) ->
+  interpolate_batch O dbg N xs ys = Ok ps ->
+  forall i j, i < length xs -> j < N ->
+    length (nth i ps []) = N /\ peval O (nth i ps []) (nth j (nth i xs []) zero) = nth j (nth i ys []) zero.
+Proof. exact (interpolate_batch_evaluates O L). Qed.
+
+(* ---------------------------------------------------------------- uniqueness: interpolate o eval_many = id *)
+Theorem C20_interpolate_eval_many : forall dbg xs p, NoDup xs -> length p <= length xs ->
+  interpolate O dbg xs (eval_many O p xs) false = Ok (p ++ repeat zero (length xs - length p)).
+Proof. exact (interpolate_eval_many O L). Qed.
+
+Theorem C20_interpolate_eval_many_rlz : forall dbg xs p, NoDup xs -> length p <= length xs ->
+  interpolate O dbg xs (eval_many O p xs) true = Ok (remove_leading_zeros O p).
+Proof. exact (interpolate_eval_many_rlz O L). Qed.
+
+Theorem C20_interpolate_unique : forall dbg xs ys q, NoDup xs -> length ys = length xs -> length q = length xs ->
+  (forall m, m < length xs -> peval O q (nth m xs zero) = nth m ys zero) ->
+  interpolate O dbg xs ys false = Ok q.
+Proof. exact (interpolate_unique O L). Qed.
+
+(* ---------------------------------------------------------------- exact division (synthetic divisions) *)
+(* (x - b) q divided by x - b returns q (padded with one zero) and remainder 0 *)
+Theorem C20_syn_div_exact_linear : forall q b, q <> [] -> b <> zero ->
+  syn_div_in_place_full O (linmul O q b) 1 b = Ok (q ++ [zero], [zero]).
+Proof. exact (syn_div_exact_linear O L). Qed.
+
+(* q * prod (x - r_i), built by multiplying by the linear factors in order, divided by the list of roots returns q
+   padded with m zeros (repeated roots and the root 0 allowed) *)
+Theorem C20_syn_div_roots_exact : forall roots q, roots <> [] -> q <> [] ->
+  syn_div_roots_in_place O (fold_left (linmul O) roots q) roots = Ok (q ++ repeat zero (length roots)).
+Proof. exact (syn_div_roots_exact O L). Qed.
+
 (* NOT PROVED (tested only, by the correspondence and the falsifier):
-   - interpolate_batch_spec : forall N xs ys, N >= 1 -> length xs = length ys -> all batches of length N ->
-       interpolate_batch O dbg N xs ys = Ok ps /\ forall i, nth i ps = the result of interpolate on batch i
-   - interpolate o eval_many = id on polynomials of length <= n (needs the root-counting theorem)
-   - exact division: syn_div (mul p (x^a - b)) a b = p padded (uniqueness of quotient/remainder) *)
+   - exact LONG division: if a = q0 * b coefficient-wise then div a b = q0 and the remainder part of the working copy
+     is zero.  C20_div_spec gives a = q*b + r only as an identity of polynomial FUNCTIONS; over a finite field the
+     uniqueness argument needs the coefficient-level fact lead(q*b) = lead(q)*lead(b), not developed here.
+   - exact division by x^a - b for a >= 2. *)
 
 End C20.
 
@@ -243,6 +289,13 @@ Print Assumptions C20_eval_many_interpolate.
 Print Assumptions C20_interpolate_total_iff.
 Print Assumptions C20_interpolate_release_total_iff.
 Print Assumptions C20_interpolate_unrepaired_refuted.
+Print Assumptions C20_interpolate_batch_spec.
+Print Assumptions C20_interpolate_batch_evaluates.
+Print Assumptions C20_interpolate_eval_many.
+Print Assumptions C20_interpolate_eval_many_rlz.
+Print Assumptions C20_interpolate_unique.
+Print Assumptions C20_syn_div_exact_linear.
+Print Assumptions C20_syn_div_roots_exact.
 
 (* ---------------------------------------------------------------- non-vacuity *)
 (* the hypothesis `FLaws O` is satisfiable: GF(7) *)
@@ -250,19 +303,19 @@ Theorem C20_laws_inhabited : FLaws f7_ops.
 Proof. exact f7_laws. Qed.
 Print Assumptions C20_laws_inhabited.
 
-(* interpolate_batch: the unbounded statement is NOT proved (see the comment above).  Bounded sanity theorems about
-   its model over GF(7), exhaustive over the stated domains by kernel computation: it equals interpolate applied to
-   every batch, duplicates and X = 0 included, also for a second batch (the roots vector is reused). *)
-Theorem C20_interpolate_batch_agrees_GF7_N3_partial : forall x0 x1 x2 y0 y1,
-  interpolate_batch f7_ops true 3 [[x0; x1; x2]] [[y0; y1; e4]] = batchwise [[x0; x1; x2]] [[y0; y1; e4]].
-Proof. exact batch_agrees_N3. Qed.
-Print Assumptions C20_interpolate_batch_agrees_GF7_N3_partial.
+(* the extension fields over which the correspondence also runs the models (Model/PolynomExt.v) are the q_ops / c_ops
+   of C08, for which C08 proves the field laws over the typed prime fields: every theorem above applies to them *)
+Theorem C20_extension_ops_are_C08 : forall F (O : FOps F) (I2 : Ext2Impl F) (I3 : Ext3Impl F),
+  quad_ops O I2 = q_ops O I2 /\ cube_ops O I3 = c_ops O I3.
+Proof. intros; split; reflexivity. Qed.
+Print Assumptions C20_extension_ops_are_C08.
 
-Theorem C20_interpolate_batch_agrees_GF7_N2_two_partial : forall x0 x1 y0 u0 u1,
-  interpolate_batch f7_ops true 2 [[x0; x1]; [u0; u1]] [[y0; e6]; [e3; e5]]
-  = batchwise [[x0; x1]; [u0; u1]] [[y0; e6]; [e3; e5]].
-Proof. exact batch_agrees_N2_two. Qed.
-Print Assumptions C20_interpolate_batch_agrees_GF7_N2_two_partial.
+Theorem C20_extension_fields_satisfy_laws :
+  FLaws (quad_ops F64_ops (f64_x2 F64_ops)) /\ FLaws (quad_ops F62_ops (f62_x2 F62_ops)) /\
+  FLaws (quad_ops F128_ops (f128_x2 F128_ops)) /\
+  FLaws (cube_ops F64_ops (f64_x3 F64_ops)) /\ FLaws (cube_ops F62_ops (f62_x3 F62_ops)).
+Proof. exact (conj f64_quad_laws (conj f62_quad_laws (conj f128_quad_laws (conj f64_cube_laws f62_cube_laws)))). Qed.
+Print Assumptions C20_extension_fields_satisfy_laws.
 
 (* instances of the theorems' hypotheses and conclusions, computed by the kernel *)
 Example ex_interpolate_zero_x :           (* distinct xs containing 0, equal lengths: Ok, and evaluates back to ys *)
@@ -272,6 +325,14 @@ Example ex_interpolate_zero_x :           (* distinct xs containing 0, equal len
 Proof.
   split. { repeat constructor; simpl; intuition discriminate. } vm_compute. repeat split.
 Qed.
+
+Example ex_interpolate_batch :            (* two batches, N = 2, X = 0 present: equals interpolate on each batch *)
+  interpolate_batch f7_ops true 2 [[e0; e1]; [e3; e4]] [[e5; e0]; [e1; e1]] = Ok [[e5; e2]; [e1; e0]] /\
+  interpolate f7_ops true [e0; e1] [e5; e0] false = Ok [e5; e2] /\
+  interpolate f7_ops true [e3; e4] [e1; e1] false = Ok [e1; e0] /\
+  interpolate_batch f7_ops true 0 [[]] [[]] = Panic /\
+  interpolate f7_ops true [e0; e1; e3] (eval_many f7_ops [e2; e6] [e0; e1; e3]) false = Ok [e2; e6; e0].
+Proof. vm_compute. repeat split. Qed.
 
 Example ex_div :                          (* (x^3+x^2+2x+2) / (x^2+2) = x+1, remainder in the working copy *)
   div_full f7_ops [e2; e2; e1; e1] [e2; e0; e1; e0] = Ok ([e1; e1], [e0; e0; e1; e1]) /\
